@@ -228,6 +228,10 @@ func sharedHolderOption() gotype.UnfoldOption {
 
 type shared struct {
 	holderOpt gotype.UnfoldOption
+	// ONE gotype.Folders option value (a folder for model.Inner with marker
+	// variant 15) handed to several iterators, alone or followed by a second
+	// Folders option of the task's own: options are values, not instances
+	foldOpt gotype.FoldOption
 	// fold-only values (inline interface / Folder / map fields): shared by the
 	// fold-encode operations of all tasks
 	foldVals  []interface{}
@@ -243,7 +247,7 @@ type shared struct {
 }
 
 func genShared(c *simkit.Choices) *shared {
-	s := &shared{holderOpt: sharedHolderOption()}
+	s := &shared{holderOpt: sharedHolderOption(), foldOpt: gotype.Folders(innerFolder(15))}
 	// the first shared value always contains model.Inner, the type for which
 	// tasks register different custom folders/unfolders
 	inner := []string{"Holder", "Nested", "Tagged", "Inner", "[]*Inner", "Holder", "Wide"}
@@ -582,6 +586,50 @@ func genOp(c *simkit.Choices, sh *shared, taskIdx int) *op {
 		var shape interface{} = val
 		if c.Bool() {
 			shape = model.Tagged{Name: "t", In: val.I}
+		}
+		if c.N(3) == 0 {
+			// the SHARED option value, alone or with a second option of this task
+			own := c.Bool()
+			desc := OpDesc{Kind: "shared-folder-option", Format: string(f), Variant: variant}
+			if own {
+				desc.Kind = "shared-folder-option-plus-own"
+			}
+			nested := model.Nested{I: val.I, S: model.Simple{B: "s" + model.GenText(c, 4)}}
+			return &op{desc: desc,
+				check: func(_ string, parts []interface{}) string {
+					if len(parts) != 2 || parts[1] != nil {
+						return ""
+					}
+					out, _ := parts[0].([]byte)
+					if !strings.Contains(string(out), marker("v", 15)) {
+						return "output lacks the marker of the shared Inner folder " + marker("v", 15)
+					}
+					if has := strings.Contains(string(out), marker("w", variant)); has != own {
+						return fmt.Sprintf("marker of this task's own Simple folder %s present=%v, registered=%v", marker("w", variant), has, own)
+					}
+					if m := foreignMarker(string(out), "w", variant); m != "" {
+						return "output carries the marker of ANOTHER task's Simple folder (registered next to the shared option value there): " + m
+					}
+					return ""
+				},
+				run: func(yield func()) []interface{} {
+					return guard(func() []interface{} {
+						w := yieldingWriter(yield)
+						opts := []gotype.FoldOption{sh.foldOpt}
+						if own {
+							opts = append(opts, gotype.Folders(func(in *model.Simple, vs structform.ExtVisitor) error {
+								return vs.OnString(marker("w", variant) + in.B)
+							}))
+						}
+						it, err := gotype.NewIterator(cd.NewVisitor(w), opts...)
+						if err != nil {
+							return []interface{}{err}
+						}
+						yield()
+						err = it.Fold(nested)
+						return []interface{}{w.Buf, err}
+					})
+				}}
 		}
 		return &op{desc: OpDesc{Kind: "custom-folder", Format: string(f), Variant: variant},
 			check: func(_ string, parts []interface{}) string {
